@@ -15,7 +15,7 @@ RULE = ("cases = executed get/set-item operations judged by the contract wrapper
         "boundary random up to 1023 bits; clog2 for all N<=2^16 and 2^k-1,2^k,2^k+1 for k<=1100. "
         "distinct_nontrivial = distinct (operation, validity class, width class, outcome) tuples observed")
 ASSUMPTIONS = [
-  "helper misuse the statement does not mention (non-Bits arguments) is not asserted; zext/sext to a narrower and trunc to a wider target must raise for int and BitsN-type targets alike",
+  "helper misuse the statement does not mention (non-Bits arguments) is not asserted; zext/sext to a narrower target must raise for int and BitsN-type targets alike, trunc to a wider int width must raise (trunc to a wider TYPE is used by the repository as 'fit into' and is not asserted)",
   "an operation with both an invalid index and an invalid value may raise either IndexError or ValueError",
   "bounds given as Bits are read as their unsigned value",
 ]
@@ -177,8 +177,16 @@ def run_helpers(sh):
             if m < n:
               _chk(sh, "zext-narrower-rejected", _try(zext, x, tgt) is None, n=n, m=m, x=xv)
               _chk(sh, "sext-narrower-rejected", _try(sext, x, tgt) is None, n=n, m=m, x=xv)
-            if m > n:
+            if m > n and isinstance(tgt, int):      # trunc( x, WiderType ) is the repository's 'fit x into that type' idiom
               _chk(sh, "trunc-wider-rejected", _try(trunc, x, tgt) is None, n=n, m=m, x=xv)
+  # a width given as a Bits value denotes the same class as the integer, and asking for it leaves the table of classes alone
+  for n in (1, 2, 4, 7, 8, 9, 16, 20, 33, 64, 100, 200):
+    before = mk_bits(n)
+    holder = Bits(max(8, n.bit_length() + 1), n)
+    try: r = mk_bits(holder)
+    except Exception as e: r = f"raised {type(e).__name__}"
+    sh.count("mk_bits_with_bits_width_probes")
+    _chk(sh, "mk_bits-of-a-Bits-width-is-the-class-of-that-width", r is before and mk_bits(n) is before and Bits(n, 0).__class__ is not None, n=n, got=str(r))
   for c in range(sh.params["cases"]):
     k = rng.randrange(4)
     if k == 0:
